@@ -40,6 +40,8 @@ TEXT = {
          "Rocq LTS model with fault plans explored exhaustively for finite instances; fault-injection runs with trace validation"),
  "C17": ("Theorems C17_streaminfo_new, C17_framebuf_with_size, C17_fill_interleaved, C17_fill_le_bytes_errors, C17_frame_entry, C17_stream_entry (both modes), C17_never_panics: each entry point's validation model accepts exactly the supported domain of the property text (arguments are unbounded naturals, so truncation wrap-arounds are covered) and has no panicking outcome. Tied by the API stream: boundary / wrap-around grid on the implementation (debug and release), verdict compared with the model and with an independent Python statement of the domain.",
          "Rocq proof: exactness of the validation model of every entry point; boundary-grid correspondence incl. hang/panic detection"),
+ "C18": ("Theorems C18_total (no constructor has a panicking outcome, for all arguments), C18_*_verifies (what a constructor returns passes verification), C18_residual / C18_subframes / C18_verified_subframe_serialises (a constructed or verified residual / subframe serialises on either sink, without panic, to exactly count_bits bits - via C08 and C11). PARTIAL: parse-back identity and frame/header/metadata serialisation are validated, not proved, by the CTOR stream: every constructor on consistent and inconsistent argument grids, implementation (debug+release) vs model on verdict, verify, count_bits, bits written, bytes and parse-back, plus the property itself as an oracle on the implementation's observations.",
+         "Rocq proof: totality, verification and bit-exact serialisability of constructed components; boundary-grid correspondence and parse-back oracle"),
 }
 NOTE = ("Trusted: Coq 8.16.1 kernel, extraction with ExtrOcamlBasic only, OCaml driver, Rust harness, tools/*.py, "
         "and the hand-written model of the named source files, which is tied to /repo by differential testing "
